@@ -348,6 +348,7 @@ func isErrNotNil(info *types.Info, cond ast.Expr) bool {
 }
 
 func c13(r *core.Report) {
+	c13Close(r)
 	p := r.Prog
 	pk := p.Pkg("openapi3filter")
 	info := pk.TypesInfo
@@ -737,5 +738,73 @@ func c13Alias(r *core.Report) {
 		}
 		r.Extra["alias_sources"] = len(srcFields)
 		r.Extra["alias_sinks"] = n
+	})
+}
+
+// c13Close: the deferred Close closes what was read, not what was put back.
+func c13Close(r *core.Report) {
+	p := r.Prog
+	info := p.Pkg("openapi3filter").TypesInfo
+	r.RunRule("C13.close", "the body handed on stays open: in every function of package openapi3filter that puts a fresh reader back into X.Body, a deferred Close of the consumed body binds its receiver when the defer statement runs (`defer X.Body.Close()`); a deferred function literal that selects X.Body only when it runs closes the reader that was just re-installed for the next handler and leaves the original open", 2, func() {
+		n := 0
+		for _, d := range p.AllDecls("openapi3filter") {
+			// expressions whose .Body is assigned in this function (closures included)
+			assigned := map[string]bool{}
+			ast.Inspect(d.Body, func(nd ast.Node) bool {
+				if as, ok := nd.(*ast.AssignStmt); ok {
+					for _, l := range as.Lhs {
+						if sel, ok := ast.Unparen(l).(*ast.SelectorExpr); ok && sel.Sel.Name == "Body" {
+							if f := core.FieldSel(info, sel); f != nil && f.Pkg() != nil && f.Pkg().Path() == "net/http" {
+								assigned[core.ExprStr(sel.X)] = true
+							}
+						}
+					}
+				}
+				return true
+			})
+			if len(assigned) == 0 {
+				continue
+			}
+			perFn := 0
+			ast.Inspect(d.Body, func(nd ast.Node) bool {
+				ds, ok := nd.(*ast.DeferStmt)
+				if !ok {
+					return true
+				}
+				// defer X.Body.Close(): receiver evaluated now
+				if sel, ok := ds.Call.Fun.(*ast.SelectorExpr); ok && sel.Sel.Name == "Close" {
+					if bs, ok := ast.Unparen(sel.X).(*ast.SelectorExpr); ok && bs.Sel.Name == "Body" && assigned[core.ExprStr(bs.X)] {
+						n++
+						perFn++
+						r.OK(fmt.Sprintf("close:%s#%d", core.FuncName(d), perFn), p.Pos(ds.Pos()), "receiver bound when the defer statement runs")
+					}
+					return true
+				}
+				fl, ok := ds.Call.Fun.(*ast.FuncLit)
+				if !ok {
+					return true
+				}
+				ast.Inspect(fl.Body, func(m ast.Node) bool {
+					c, ok := m.(*ast.CallExpr)
+					if !ok {
+						return true
+					}
+					sel, ok := c.Fun.(*ast.SelectorExpr)
+					if !ok || sel.Sel.Name != "Close" {
+						return true
+					}
+					if bs, ok := ast.Unparen(sel.X).(*ast.SelectorExpr); ok && bs.Sel.Name == "Body" && assigned[core.ExprStr(bs.X)] {
+						n++
+						perFn++
+						r.Bad(fmt.Sprintf("close:%s#%d", core.FuncName(d), perFn), p.Pos(c.Pos()), fmt.Sprintf("the deferred function reads %s.Body when it runs, after the function has put a fresh reader there: it closes the body handed to the next handler and never closes the one that was read", core.ExprStr(bs.X)))
+					}
+					return true
+				})
+				return true
+			})
+		}
+		if n == 0 {
+			core.Fail("no deferred Close of a request/response body found")
+		}
 	})
 }
